@@ -9,8 +9,12 @@ Exp/EdgePadding.v have a mirror for these two only).
                                      result name in save_name / only wait_for_response rows do
   loose_exit_rows                    a case / bucket that leads nowhere is exported as a loose_exit row carrying its
                                      condition (and an unconnected No Response category gives no edge) / it is dropped
+  pairs_follow_cases                 SwitchRouter.get_exit_edge_pairs gives one edge per case, in case order / one edge per
+                                     category (its first case), in category order
   webhook_headers_packed             FlowContainer.to_row_data_sheet packs webhook.headers into one cell /
                                      spreads it over webhook.headers.<i>.<j> columns
+  has_group_edges_by_name            a has_group condition on an edge of a row that is not a split_by_group row is compiled
+                                     to the case arguments [uuid, name] / to [name] (IndexError in record_global_uuids)
   blank_edges_dropped                FlowParser ignores an all-blank edge that is not the first edge of its row for
                                      every kind of row / only for ordinary (action, router) rows
 """
@@ -161,6 +165,26 @@ def tables_c04(out, notes):
                      "a behaviour the C04 model has no mirror for")
     out.append(f"Definition loose_exit_rows : bool := {coq_bool(loose)}.")
 
+    # ---- 3b. several cases of one router sharing a category
+    try:
+        from rpft.rapidpro.models.routers import RouterCase
+
+        cp, cu, co = RouterCategory("Positive", "d1"), RouterCategory("Unsure", "d2"), RouterCategory("Other", None)
+        r = SwitchRouter("@input.text", wait_timeout=0, default_category=co, categories=[cp, cu],
+                         cases=[RouterCase("has_any_word", ["yes"], cp.uuid), RouterCase("has_any_word", ["maybe"], cu.uuid),
+                                RouterCase("has_any_word", ["ok"], cp.uuid), RouterCase("has_any_word", ["lost"], "no-such-category")])
+        got_p = [(ex.destination_uuid, e.condition.value, e.condition.name) for ex, e in r.get_exit_edge_pairs("row")]
+    except Exception as e:
+        raise Refuse(f"cannot probe SwitchRouter.get_exit_edge_pairs on cases sharing a category: {type(e).__name__}: {e}")
+    if got_p == [("d1", "yes", "Positive"), ("d2", "maybe", "Unsure"), ("d1", "ok", "Positive"), (None, "", "")]:
+        per_case = True       # one edge per case, in case order
+    elif got_p == [("d1", "yes", "Positive"), ("d2", "maybe", "Unsure"), (None, "", "")]:
+        per_case = False      # one edge per category (its first case), in category order
+    else:
+        raise Refuse(f"get_exit_edge_pairs of a router whose cases share a category gives {got_p!r}: "
+                     "a behaviour the C04 model has no mirror for")
+    out.append(f"Definition pairs_follow_cases : bool := {coq_bool(per_case)}.")
+
     # ---- 4. webhook headers: one packed cell or spread columns
     try:
         from rpft.rapidpro.models.containers import FlowContainer
@@ -223,8 +247,44 @@ def tables_c04(out, notes):
     else:
         raise Refuse(f"FlowParser: the row before a padded go_to row leads to {b_dest!r}: a behaviour the C04 model has no mirror for")
     out.append(f"Definition blank_edges_dropped : bool := {coq_bool(dropped)}.")
+
+    # ---- 7. a has_group condition on an edge of a row that is not a split_by_group row
+    def compile_container(headers, rows):
+        t = tablib.Dataset(headers=headers)
+        for r in rows:
+            t.append(r)
+        container = RapidProContainer()
+        FlowParser(container, "probe", t).parse()
+        return container.render()["flows"][0]["nodes"]     # render() validates: group uuids are recorded and assigned
+
+    try:
+        h7 = ["row_id", "type", "from", "condition", "condition_type", "message_text"]
+        try:
+            nodes7 = compile_container(h7, [["1", "wait_for_response", "start", "", "", ""],
+                                            ["2", "send_message", "1", "my group", "has_group", "in"]])
+            args7 = [k["arguments"] for k in nodes7[0]["router"]["cases"]]
+        except IndexError:
+            args7 = "IndexError"
+        nodes7b = compile_container(h7, [["1", "split_by_group", "start", "", "", "my group"],
+                                         ["2", "send_message", "1", "my group", "", "in"]])
+        args7b = [k["arguments"] for k in nodes7b[0]["router"]["cases"]]
+    except SystemExit:
+        raise Refuse("FlowParser rejects the has_group probe sheet")
+    except Exception as e:
+        raise Refuse(f"cannot probe FlowParser on a has_group edge: {type(e).__name__}: {e}")
+    if not (len(args7b) == 1 and len(args7b[0]) == 2 and args7b[0][0] and args7b[0][1] == "my group"):
+        raise Refuse(f"a split_by_group edge compiles to the case arguments {args7b!r}")
+    if args7 == "IndexError":
+        by_name7 = False      # the case gets the single argument [name]: record_global_uuids raises IndexError
+    elif isinstance(args7, list) and len(args7) == 1 and len(args7[0]) == 2 and args7[0][1] == "my group" and args7[0][0]:
+        by_name7 = True       # [uuid, name], the uuid filled in from the name
+    else:
+        raise Refuse(f"a has_group edge of a wait_for_response row compiles to the case arguments {args7!r}: "
+                     "a behaviour the C04 model has no mirror for")
+    out.append(f"Definition has_group_edges_by_name : bool := {coq_bool(by_name7)}.")
     notes.append(f"C04: probes group_split_without_cases_exports={gsplit} split_rows_carry_save_name={keeps_name} "
-                 f"loose_exit_rows={loose} webhook_headers_packed={packed} blank_edges_dropped={dropped}")
+                 f"loose_exit_rows={loose} pairs_follow_cases={per_case} webhook_headers_packed={packed} "
+                 f"blank_edges_dropped={dropped} has_group_edges_by_name={by_name7}")
 
 
 GENERATORS = [tables_c04]
